@@ -113,64 +113,95 @@ inductive ArgSpec where
 
 def callN (f : Fn) : List INode → INode := fun args => .call f args
 
-/-- the `switch name` of `parser.function` -/
-def builtin (name : String) : Option ArgSpec :=
-  match name with
-  | "abs" => some (.fixed 1 1 (callN .abs))
-  | "avg" => some (.fixed 1 1 (callN .avg))
-  | "ceil" => some (.fixed 1 1 (callN .ceil))
-  | "contains" => some (.fixed 2 2 (callN .contains))
-  | "ends_with" => some (.fixed 2 2 (callN .endsWith))
-  | "find_first" => some (.fixed 2 4 (fun a => match a.length with
-      | 2 => .call .findFirst a | 3 => .call .findFirstFrom a | _ => .call .findFirstBetween a))
-  | "find_last" => some (.fixed 2 4 (fun a => match a.length with
-      | 2 => .call .findLast a | 3 => .call .findLastFrom a | _ => .call .findLastBetween a))
-  | "floor" => some (.fixed 1 1 (callN .floor))
-  | "from_items" => some (.fixed 1 1 (callN .fromItems))
-  | "group_by" => some (.expArg .groupBy)
-  | "items" => some (.fixed 1 1 (callN .items))
-  | "join" => some (.fixed 2 2 (callN .join))
-  | "keys" => some (.fixed 1 1 (callN .keys))
-  | "length" => some (.fixed 1 1 (callN .length))
-  | "lower" => some (.fixed 1 1 (callN .lower))
-  | "map" => some (.mapArg .map)
-  | "max" => some (.fixed 1 1 (callN .max))
-  | "max_by" => some (.expArg .maxBy)
-  | "merge" => some (.varArg .merge)
-  | "min" => some (.fixed 1 1 (callN .min))
-  | "min_by" => some (.expArg .minBy)
-  | "not_null" => some (.varArg .notNull)
-  | "pad_left" => some (.fixed 2 3 (fun a => if a.length = 2 then .call .padSpaceLeft a else .call .padLeft a))
-  | "pad_right" => some (.fixed 2 3 (fun a => if a.length = 2 then .call .padSpaceRight a else .call .padRight a))
-  | "replace" => some (.fixed 3 4 (fun a => if a.length = 3 then .call .replace a else .call .replaceCount a))
-  | "reverse" => some (.fixed 1 1 (callN .reverse))
-  | "sort" => some (.fixed 1 1 (callN .sort))
-  | "sort_by" => some (.expArg .sortBy)
-  | "split" => some (.fixed 2 3 (fun a => if a.length = 2 then .call .split a else .call .splitCount a))
-  | "starts_with" => some (.fixed 2 2 (callN .startsWith))
-  | "sum" => some (.fixed 1 1 (callN .sum))
-  | "to_array" => some (.fixed 1 1 (callN .toArray))
-  | "to_number" => some (.fixed 1 1 (callN .toNumber))
-  | "to_string" => some (.fixed 1 1 (callN .toString))
-  | "trim" => some (.fixed 1 2 (fun a => if a.length = 1 then .call .trimSpace a else .call .trim a))
-  | "trim_left" => some (.fixed 1 2 (fun a => if a.length = 1 then .call .trimSpaceLeft a else .call .trimLeft a))
-  | "trim_right" => some (.fixed 1 2 (fun a => if a.length = 1 then .call .trimSpaceRight a else .call .trimRight a))
-  | "type" => some (.fixed 1 1 (callN .type))
-  | "upper" => some (.fixed 1 1 (callN .upper))
-  | "values" => some (.fixed 1 1 (callN .values))
-  | "zip" => some (.varArg .zip)
-  | _ => none
-
-def builtinNames : List String :=
-  ["abs", "avg", "ceil", "contains", "ends_with", "find_first", "find_last", "floor", "from_items", "group_by",
-   "items", "join", "keys", "length", "lower", "map", "max", "max_by", "merge", "min", "min_by", "not_null",
-   "pad_left", "pad_right", "replace", "reverse", "sort", "sort_by", "split", "starts_with", "sum", "to_array",
-   "to_number", "to_string", "trim", "trim_left", "trim_right", "type", "upper", "values", "zip"]
+/-- the `switch name` of `parser.function`: builtin name (as bytes) and how its arguments are parsed -/
+def builtinTable : List (Bytes × ArgSpec) := [
+  -- abs
+  ([0x61, 0x62, 0x73], .fixed 1 1 (callN .abs)),
+  -- avg
+  ([0x61, 0x76, 0x67], .fixed 1 1 (callN .avg)),
+  -- ceil
+  ([0x63, 0x65, 0x69, 0x6C], .fixed 1 1 (callN .ceil)),
+  -- contains
+  ([0x63, 0x6F, 0x6E, 0x74, 0x61, 0x69, 0x6E, 0x73], .fixed 2 2 (callN .contains)),
+  -- ends_with
+  ([0x65, 0x6E, 0x64, 0x73, 0x5F, 0x77, 0x69, 0x74, 0x68], .fixed 2 2 (callN .endsWith)),
+  -- find_first
+  ([0x66, 0x69, 0x6E, 0x64, 0x5F, 0x66, 0x69, 0x72, 0x73, 0x74], .fixed 2 4 (fun a => match a.length with
+      | 2 => .call .findFirst a | 3 => .call .findFirstFrom a | _ => .call .findFirstBetween a)),
+  -- find_last
+  ([0x66, 0x69, 0x6E, 0x64, 0x5F, 0x6C, 0x61, 0x73, 0x74], .fixed 2 4 (fun a => match a.length with
+      | 2 => .call .findLast a | 3 => .call .findLastFrom a | _ => .call .findLastBetween a)),
+  -- floor
+  ([0x66, 0x6C, 0x6F, 0x6F, 0x72], .fixed 1 1 (callN .floor)),
+  -- from_items
+  ([0x66, 0x72, 0x6F, 0x6D, 0x5F, 0x69, 0x74, 0x65, 0x6D, 0x73], .fixed 1 1 (callN .fromItems)),
+  -- group_by
+  ([0x67, 0x72, 0x6F, 0x75, 0x70, 0x5F, 0x62, 0x79], .expArg .groupBy),
+  -- items
+  ([0x69, 0x74, 0x65, 0x6D, 0x73], .fixed 1 1 (callN .items)),
+  -- join
+  ([0x6A, 0x6F, 0x69, 0x6E], .fixed 2 2 (callN .join)),
+  -- keys
+  ([0x6B, 0x65, 0x79, 0x73], .fixed 1 1 (callN .keys)),
+  -- length
+  ([0x6C, 0x65, 0x6E, 0x67, 0x74, 0x68], .fixed 1 1 (callN .length)),
+  -- lower
+  ([0x6C, 0x6F, 0x77, 0x65, 0x72], .fixed 1 1 (callN .lower)),
+  -- map
+  ([0x6D, 0x61, 0x70], .mapArg .map),
+  -- max
+  ([0x6D, 0x61, 0x78], .fixed 1 1 (callN .max)),
+  -- max_by
+  ([0x6D, 0x61, 0x78, 0x5F, 0x62, 0x79], .expArg .maxBy),
+  -- merge
+  ([0x6D, 0x65, 0x72, 0x67, 0x65], .varArg .merge),
+  -- min
+  ([0x6D, 0x69, 0x6E], .fixed 1 1 (callN .min)),
+  -- min_by
+  ([0x6D, 0x69, 0x6E, 0x5F, 0x62, 0x79], .expArg .minBy),
+  -- not_null
+  ([0x6E, 0x6F, 0x74, 0x5F, 0x6E, 0x75, 0x6C, 0x6C], .varArg .notNull),
+  -- pad_left
+  ([0x70, 0x61, 0x64, 0x5F, 0x6C, 0x65, 0x66, 0x74], .fixed 2 3 (fun a => if a.length = 2 then .call .padSpaceLeft a else .call .padLeft a)),
+  -- pad_right
+  ([0x70, 0x61, 0x64, 0x5F, 0x72, 0x69, 0x67, 0x68, 0x74], .fixed 2 3 (fun a => if a.length = 2 then .call .padSpaceRight a else .call .padRight a)),
+  -- replace
+  ([0x72, 0x65, 0x70, 0x6C, 0x61, 0x63, 0x65], .fixed 3 4 (fun a => if a.length = 3 then .call .replace a else .call .replaceCount a)),
+  -- reverse
+  ([0x72, 0x65, 0x76, 0x65, 0x72, 0x73, 0x65], .fixed 1 1 (callN .reverse)),
+  -- sort
+  ([0x73, 0x6F, 0x72, 0x74], .fixed 1 1 (callN .sort)),
+  -- sort_by
+  ([0x73, 0x6F, 0x72, 0x74, 0x5F, 0x62, 0x79], .expArg .sortBy),
+  -- split
+  ([0x73, 0x70, 0x6C, 0x69, 0x74], .fixed 2 3 (fun a => if a.length = 2 then .call .split a else .call .splitCount a)),
+  -- starts_with
+  ([0x73, 0x74, 0x61, 0x72, 0x74, 0x73, 0x5F, 0x77, 0x69, 0x74, 0x68], .fixed 2 2 (callN .startsWith)),
+  -- sum
+  ([0x73, 0x75, 0x6D], .fixed 1 1 (callN .sum)),
+  -- to_array
+  ([0x74, 0x6F, 0x5F, 0x61, 0x72, 0x72, 0x61, 0x79], .fixed 1 1 (callN .toArray)),
+  -- to_number
+  ([0x74, 0x6F, 0x5F, 0x6E, 0x75, 0x6D, 0x62, 0x65, 0x72], .fixed 1 1 (callN .toNumber)),
+  -- to_string
+  ([0x74, 0x6F, 0x5F, 0x73, 0x74, 0x72, 0x69, 0x6E, 0x67], .fixed 1 1 (callN .toString)),
+  -- trim
+  ([0x74, 0x72, 0x69, 0x6D], .fixed 1 2 (fun a => if a.length = 1 then .call .trimSpace a else .call .trim a)),
+  -- trim_left
+  ([0x74, 0x72, 0x69, 0x6D, 0x5F, 0x6C, 0x65, 0x66, 0x74], .fixed 1 2 (fun a => if a.length = 1 then .call .trimSpaceLeft a else .call .trimLeft a)),
+  -- trim_right
+  ([0x74, 0x72, 0x69, 0x6D, 0x5F, 0x72, 0x69, 0x67, 0x68, 0x74], .fixed 1 2 (fun a => if a.length = 1 then .call .trimSpaceRight a else .call .trimRight a)),
+  -- type
+  ([0x74, 0x79, 0x70, 0x65], .fixed 1 1 (callN .type)),
+  -- upper
+  ([0x75, 0x70, 0x70, 0x65, 0x72], .fixed 1 1 (callN .upper)),
+  -- values
+  ([0x76, 0x61, 0x6C, 0x75, 0x65, 0x73], .fixed 1 1 (callN .values)),
+  -- zip
+  ([0x7A, 0x69, 0x70], .varArg .zip)]
 
 def lookupBuiltin (name : Bytes) : Option ArgSpec :=
-  match builtinNames.find? (fun n => bytesOfString n == name) with
-  | some n => builtin n
-  | none => none
+  (builtinTable.find? (fun e => e.1 == name)).map (·.2)
 
 /-- `parser.index(child)`: `(node, project)`; `child = none` is Go's nil child (the `…CurrentNode` forms) -/
 def indexP (child : Option INode) : PM (INode × Bool) := do
